@@ -12,7 +12,7 @@ META = {
 
 def run(ctx):
     return mworld.run_family(
-        ctx, "C18", scenarios=[1, 2, 3], impls=['basicmutable', 'overlay-basic', 'overlay-mutable', 'overlay-empty'],
+        ctx, "C18", scenarios=[1, 2, 3, 8], impls=['basicmutable', 'overlay-basic', 'overlay-mutable', 'overlay-empty'],
         sections=['roundtrip'],
         select=lambda e: e['ev']['op'] == 'roundtrip',
         meta_rule='every RoundTrip transition executed via its shortest prefix on 4 world constructions + random walks',
